@@ -6,8 +6,14 @@
     non-decreasing line order, so Lines() = (first appended line, last appended line).
 
     The parser theorems are generic in this function (a Section variable); the correspondence runs use
-    this executable version.  [None] = the Go code would panic (index out of range). *)
-From Coq Require Import List String Ascii Arith Bool Lia.
+    this executable version.  [None] = the Go code would panic (index out of range).
+
+    Code modelled: /repo HEAD after the position fixes 660d1e1 (block scalars start on the line after the header),
+    6c7f5de (a line break gets a position only when it was consumed as a character of the value), 9af0d98
+    (character column -> byte column on the node's own line) and 69b377d (anchored scalars start after the anchor).
+    Inputs beyond value/line/column: [block] = Style has LiteralStyle or FoldedStyle, [anchor_len] = len(Anchor)
+    (0 = no anchor). *)
+From Coq Require Import List String Ascii Arith Bool NArith Lia.
 From PintV Require Import Common.Bytes.
 Import ListNotations.
 Open Scope string_scope.
@@ -49,16 +55,81 @@ Definition upd (acc : option (nat * nat)) (l : nat) : option (nat * nat) :=
   | Some (f, la) => Some (Nat.min f l, Nat.max la l)
   end.
 
-(** One iteration per source line.  [need] is the not yet matched suffix of the value (non-empty). *)
-Fixpoint pl_loop (fuel : nat) (lines : list string) (min_col : nat) (line_idx col_idx : nat) (need : string)
-         (acc : option (nat * nat)) : option (option (nat * nat)) :=
+(** Width in bytes of the first rune of a non-empty string, Go semantics ([for i := range line]): an invalid or
+    truncated UTF-8 sequence is one byte wide. *)
+Definition is_cont (b : N) : bool := (N.leb 128 b && N.leb b 191)%bool.
+
+Definition rune_width (s : string) : nat :=
+  match s with
+  | EmptyString => 1
+  | String c0 r =>
+      let b0 := N_of_ascii c0 in
+      if N.ltb b0 128 then 1
+      else if (N.ltb b0 194 || N.ltb 244 b0)%bool then 1
+      else if N.ltb b0 224 then
+        match r with
+        | String c1 _ => if is_cont (N_of_ascii c1) then 2 else 1
+        | _ => 1
+        end
+      else if N.ltb b0 240 then
+        let lo := if N.eqb b0 224 then 160%N else 128%N in
+        let hi := if N.eqb b0 237 then 159%N else 191%N in
+        match r with
+        | String c1 (String c2 _) =>
+            let b1 := N_of_ascii c1 in
+            if (N.leb lo b1 && N.leb b1 hi && is_cont (N_of_ascii c2))%bool then 3 else 1
+        | _ => 1
+        end
+      else
+        let lo := if N.eqb b0 240 then 144%N else 128%N in
+        let hi := if N.eqb b0 244 then 143%N else 191%N in
+        match r with
+        | String c1 (String c2 (String c3 _)) =>
+            let b1 := N_of_ascii c1 in
+            if (N.leb lo b1 && N.leb b1 hi && is_cont (N_of_ascii c2) && is_cont (N_of_ascii c3))%bool then 4 else 1
+        | _ => 1
+        end
+  end.
+
+(** position.go: byteColumn(line, column).  [s] = the suffix of the line starting at byte offset [i]. *)
+Fixpoint byte_column (fuel : nat) (s : string) (i column : nat) : nat :=
+  match fuel with
+  | 0 => i + column
+  | S fuel' =>
+      match s with
+      | EmptyString => i + column                       (* len(line) + column *)
+      | _ => if Nat.leb column 1 then i + 1
+             else let w := rune_width s in byte_column fuel' (drop w s) (i + w) (column - 1)
+      end
+  end.
+
+Definition tab : ascii := "009"%char.
+
+(** position.go: skipBlanks(line, column) *)
+Fixpoint skip_blanks (fuel : nat) (line : string) (column : nat) : nat :=
+  match fuel with
+  | 0 => column
+  | S fuel' =>
+      if (Nat.leb 1 column && Nat.leb column (String.length line))%bool then
+        match String.get (column - 1) line with
+        | Some c => if (Ascii.eqb c sp || Ascii.eqb c tab)%bool then skip_blanks fuel' line (S column) else column
+        | None => column
+        end
+      else column
+  end.
+
+(** One iteration per source line.  [need] is the not yet matched suffix of the value (non-empty); [lb] = the
+    previous iteration consumed a line break of the value ([lineBreak]); [first_line]/[anchor_len]: the node's own
+    line (where the column is a character column and an anchor may precede the scalar). *)
+Fixpoint pl_loop (fuel : nat) (lines : list string) (min_col first_line anchor_len : nat) (line_idx col_idx : nat) (need : string)
+         (acc : option (nat * nat)) (lb : bool) : option (option (nat * nat)) :=
   match fuel with
   | 0 => Some acc
   | S fuel' =>
       if Nat.ltb (List.length lines) line_idx then Some acc
       else if Nat.eqb line_idx 0 then None                 (* lines[-1]: panic *)
       else
-        let acc1 := match acc with Some _ => upd acc (line_idx - 1) | None => None end in
+        let acc1 := if lb then upd acc (line_idx - 1) else acc in
         let line := nth (line_idx - 1) lines "" in
         let next (need : string) (acc : option (nat * nat)) :=
           match need with
@@ -66,14 +137,19 @@ Fixpoint pl_loop (fuel : nat) (lines : list string) (min_col : nat) (line_idx co
               if (Ascii.eqb c sp || Ascii.eqb c nl)%bool then
                 match nr with
                 | EmptyString => Some acc
-                | _ => pl_loop fuel' lines min_col (S line_idx) min_col nr acc
+                | _ => pl_loop fuel' lines min_col first_line anchor_len (S line_idx) min_col nr acc true
                 end
-              else pl_loop fuel' lines min_col (S line_idx) min_col need acc
+              else pl_loop fuel' lines min_col first_line anchor_len (S line_idx) min_col need acc false
           | EmptyString => Some acc
           end in
         if Nat.eqb (String.length line) 0 then next need acc1
         else
-          let col := Nat.min (String.length line) col_idx in
+          let col0 :=
+            if Nat.eqb line_idx first_line then
+              let c := byte_column (String.length line) line 0 col_idx in
+              if Nat.eqb anchor_len 0 then c else skip_blanks (S (String.length line)) line (c + 1 + anchor_len)
+            else col_idx in
+          let col := Nat.min (String.length line) col0 in
           if Nat.eqb col 0 then None                         (* line[-1:]: panic *)
           else
             let rest := drop (col - 1) line in
@@ -89,11 +165,14 @@ Fixpoint pl_loop (fuel : nat) (lines : list string) (min_col : nat) (line_idx co
   end.
 
 (** (first, last) of NewPositionRange(lines, val, minColumn).Lines(); None = panic. *)
-Definition pos_lines (lines : list string) (value : string) (line col min_col : nat) : option (nat * nat) :=
+Definition pos_lines (lines : list string) (value : string) (line col min_col : nat) (block : bool) (anchor_len : nat)
+  : option (nat * nat) :=
   match value with
   | EmptyString => Some (line, line)
   | _ =>
-      match pl_loop (S (List.length lines)) lines min_col line col value None with
+      let start := if block then S line else line in
+      let col0 := if block then min_col else col in
+      match pl_loop (S (List.length lines)) lines min_col line anchor_len start col0 value None false with
       | None => None
       | Some None => Some (line, line)
       | Some (Some r) => Some r
